@@ -101,7 +101,7 @@ int EvalExpression::run(AsmContext *asm_context, Var &answer, bool is_paren)
       // 4:   oper
       // 5: (num)
 
-      if (need_symbol(count) || var_stack.size() == 3)
+      if (need_symbol(count))
       {
         print_error_unexp(asm_context, token);
         return -1;
@@ -113,7 +113,7 @@ int EvalExpression::run(AsmContext *asm_context, Var &answer, bool is_paren)
       else
     if (token_type == TOKEN_FLOAT)
     {
-      if (need_symbol(count) || var_stack.size() == 3)
+      if (need_symbol(count))
       {
         print_error_unexp(asm_context, token);
         return -1;
@@ -182,6 +182,16 @@ int EvalExpression::run(AsmContext *asm_context, Var &answer, bool is_paren)
           return -1;
         }
 
+        // Operators already waiting that bind at least as tightly as the
+        // new one are applied first (left to right association), so the
+        // waiting operators always get strictly tighter towards the top
+        // and there are never more of them than precedence levels.
+        while (oper_stack.is_empty() == false &&
+               oper_stack.get_last_precedence() <= oper.precedence)
+        {
+          if (execute_stack(var_stack, oper_stack) != 0) { return -1; }
+        }
+
         oper_stack.push(oper);
         count++;
       }
@@ -196,17 +206,6 @@ int EvalExpression::run(AsmContext *asm_context, Var &answer, bool is_paren)
       return -1;
     }
 
-    if (var_stack.size() == 3)
-    {
-      if (oper_stack.size() != 2)
-      {
-        print_error_unexp(asm_context, token);
-        return -1;
-      }
-
-      if (execute_stack(var_stack, oper_stack) != 0) { return  -1; }
-      count -= 2;
-    }
   }
 
   if (var_stack.is_empty()) { return -1; }
@@ -227,26 +226,15 @@ int EvalExpression::execute_stack(VarStack &var_stack, OperStack &oper_stack)
   Var d;
   Var s;
 
-  if (oper_stack.get_precedence_index() == 0)
-  {
-    oper = oper_stack.pop_first();
+  if (oper_stack.is_empty() || var_stack.size() < 2) { return -1; }
 
-    d = var_stack.pop_first();
-    s = var_stack.pop_first();
+  oper = oper_stack.pop();
 
-    if (oper.execute(d, s) != 0) { return -1; }
-    var_stack.push_front(d);
-  }
-    else
-  {
-    oper = oper_stack.pop();
+  s = var_stack.pop();
+  d = var_stack.pop();
 
-    s = var_stack.pop();
-    d = var_stack.pop();
-
-    if (oper.execute(d, s) != 0) { return -1; }
-    var_stack.push(d);
-  }
+  if (oper.execute(d, s) != 0) { return -1; }
+  var_stack.push(d);
 
   return 0;
 }
